@@ -411,7 +411,7 @@ def c08(a):
     for tab in sorted({t for t, _ in obs}):
         judge_and_classify(v, "C08", [p for t, p in obs if t == tab], f"dirA-{tab}", what)
     lex_enumeration(v, "C08", a.tier, LEX_FAMILIES[4:5], what)
-    expr_dir_b(v, "C08", a.tier, ["flat", "flat_wo", "deep"], what, families=("calls",))
+    expr_dir_b(v, "C08", a.tier, ["flat", "flat_wo", "deep"], what, families=("calls", "nested"))
     v.notes.append(f"direction A: {ncases} (tree, non-empty subset of binary operators in call form, extra parentheses) cases; "
                    "MC_Call proves the abstract desugaring inverts the rendering and that the tokenizer model with a stack of "
                    "pending calls produces exactly the desugared tokens")
@@ -757,7 +757,7 @@ def c04(a):
     v.sample({"text": "{ a} + B * a1 + {a}", "vars": [" a", "B", "a", "a1"]})
     # derived variable lists: operator application / substitution / conversion on expressions with up to ~40 variables (merged
     # lists beyond the inline capacity of 16), judged by the session specification
-    calc_pipeline(v, "C04", a.tier, [], 0, ["manyvars"], {"seed", "op_bin", "op_un", "std", "subs", "to_deep", "to_flat"},
+    calc_pipeline(v, "C04", a.tier, [], 0, ["manyvars", "dvars"], {"seed", "op_bin", "op_un", "std", "subs", "to_deep", "to_flat"},
                   "variables are not found/ordered/bound as documented", 160 if a.tier == "quick" else 2400)
     return v.finish()
 
@@ -1209,7 +1209,7 @@ def finish_calc(v, rule, sample):
 def c10(a):
     v = Verdict("C10", a.tier, "model_checking")
     q = a.tier == "quick"
-    calc_pipeline(v, "C10", a.tier, ["op", "std", "conv"], 1 if q else 2, ["ops", "mixed", "manyvars", "advnames"], {"op_un", "op_bin", "std"},
+    calc_pipeline(v, "C10", a.tier, ["op", "std", "conv"], 1 if q else 2, ["ops", "mixed", "manyvars", "advnames", "dvars"], {"op_un", "op_bin", "std"},
                   "operator application is not a homomorphism", 400 if q else 6000)
     # all two-call histories of the overloaded operators / helpers: shortcuts feeding shortcuts (a zero that still carries variables)
     calc_pipeline(v, "C10b", a.tier, ["std"], 2, [], {"std"}, "operator application is not a homomorphism", 0)
@@ -1221,7 +1221,7 @@ def c10(a):
 def c11(a):
     v = Verdict("C11", a.tier, "model_checking")
     q = a.tier == "quick"
-    calc_pipeline(v, "C11", a.tier, ["subs", "conv"], 2 if q else 3, ["subs", "mixed"], {"subs"},
+    calc_pipeline(v, "C11", a.tier, ["subs", "conv"], 2 if q else 3, ["subs", "mixed", "manyvars"], {"subs"},
                   "substitution is not simultaneous / loses variables", 400 if q else 6000)
     return finish_calc(v, "all histories of <= 2/3 substitutions+conversions over 5 maps (empty, renaming, swap-like, constant, "
                           "self-referential) + random histories", {"history": ["subs 2 {x -> entry 5 (x-z), z -> entry 1 (x)}"]})
